@@ -15,7 +15,7 @@
 #include <cstdlib>
 #include <unistd.h>
 #include "hexsim.hpp"
-struct HexVerifAccess {};
+struct HexVerifAccess { static uint32_t *memory(hexsim::Processor &p) { return p.memory.data(); } static size_t words() { return hexsim::Processor::MEMORY_SIZE_WORDS; } };
 
 static std::string writeImage(const char *name, const std::vector<uint8_t> &code) {
   std::vector<uint8_t> img(code);
@@ -49,6 +49,22 @@ static int runOn(uint8_t fill, const std::string &file, size_t maxCycles, std::s
   p->~Processor();
   ::operator delete(raw);
   return rc;
+}
+
+// first word at or beyond `imageWords` that is not zero after construction over `fill`-ed storage + load(); -1 if none
+static long scanOn(uint8_t fill, const std::string &file, size_t imageWords) {
+  g_fill = fill; g_fill_on = true;
+  struct Off { ~Off() { g_fill_on = false; } } off;
+  void *raw = ::operator new(sizeof(hexsim::Processor));
+  memset(raw, fill, sizeof(hexsim::Processor));
+  std::istringstream in; std::ostringstream os;
+  hexsim::Processor *p = new (raw) hexsim::Processor(in, os, 0);
+  p->load(file.c_str());
+  long bad = -1; uint32_t *M = HexVerifAccess::memory(*p);
+  for (size_t k = imageWords; k < HexVerifAccess::words(); k++) if (M[k] != 0) { bad = (long)k; break; }
+  p->~Processor();
+  ::operator delete(raw);
+  return bad;
 }
 
 static std::string hexScratch(const char *leaf) { const char *b = getenv("HEX_SCRATCH"); return std::string(b && *b ? b : "/var/tmp") + "/" + leaf; } // scratch files live under out/<ID>/scratch (wiped with it)
@@ -90,8 +106,11 @@ int main(int argc, char **argv) {
     std::ifstream sf("simout1", std::ios::binary); std::string echoed((std::istreambuf_iterator<char>(sf)), std::istreambuf_iterator<char>());
     if (tr == 0) { t_off = rc; e_off = echoed; c_off = cons; } else { t_on = rc; e_on = echoed; c_on = cons; }
   }
+  // (5) every word outside the loaded image is zero after construction over dirty storage + load (whole array scanned)
+  long s5 = scanOn(0xA5, f1, (p1.size() + 3) / 4);
   std::string why;
-  if (threw || t_off != t_on || e_off != e_on || c_off != c_on) why = "enabling tracing changes exit value, echoed bytes or input consumption of a program using the read call";
+  if (s5 >= 0) why = "memory word " + std::to_string(s5) + " outside the loaded image is not zero after construction over dirty storage (reads of it depend on host memory)";
+  else if (threw || t_off != t_on || e_off != e_on || c_off != c_on) why = "enabling tracing changes exit value, echoed bytes or input consumption of a program using the read call";
   else if (a3 != b3 || a3 != c3 || a3 != d3) why = "exit value of a binary cut short depends on host heap contents";
   else if (a1 != b1) why = "exit value of a program reading an unwritten word differs with host memory";
   else if (a1 != 0) why = "unwritten memory does not read as zero";
